@@ -684,6 +684,9 @@ func (in *Inst) applyContract(con *Contract, args []Val, sig *types.Signature, r
 		e.note(fmt.Sprintf("assumed contract (%s) %s", con.Kind, con.Key))
 	} else {
 		e.calleesUsed[con.Key] = true
+		if len(con.Props) == 0 {
+			e.note("contract of " + con.Key + " is used at a call site but the function is not verified under any property: assumed")
+		}
 	}
 	if sig.Recv() == nil && recvT != nil {
 		// interface method: receiver is args[0]
@@ -782,6 +785,10 @@ func (in *Inst) havocItem(mi ModItem, env *SpecEnv, oldSt, st *State) {
 	switch mi.Kind {
 	case modGhost:
 		in.havocGhost(mi.Name, st)
+	case modType:
+		for _, name := range e.W.typeComps(e, env.pkg, mi.Name) {
+			st.set(name, e.freshConst("hv", e.compSort(name)))
+		}
 	case modMem:
 		nm := e.freshConst("Mem", e.compSort("Mem"))
 		e.memVers = append(e.memVers, nm)
@@ -850,8 +857,8 @@ func (in *Inst) havocPath(x ast.Expr, pre *SpecEnv, st *State) {
 		if p, ok := T.Underlying().(*types.Pointer); ok {
 			T = p.Elem()
 		}
-		if gf, ok := e.W.ghosts[structKey(T)+"."+n.Sel.Name]; ok {
-			comp := "gf:" + structKey(T) + "." + n.Sel.Name
+		if gk, gf, ok := e.W.ghostFieldKey(T, n.Sel.Name); ok {
+			comp := "gf:" + gk
 			e.regComp(comp, "(Array Int "+gf.Sort+")")
 			st.set(comp, e.define("st", e.compSort(comp), sStore(st.get(comp), base.T, e.freshConst("hv", gf.Sort))))
 			return
@@ -1034,10 +1041,9 @@ func (in *Inst) ghostAssign(gu GhostUpdate, env *SpecEnv, v Val, st *State) {
 		if p, ok := T.Underlying().(*types.Pointer); ok {
 			T = p.Elem()
 		}
-		key := structKey(T) + "." + l.Sel.Name
-		g, ok := e.W.ghosts[key]
+		key, g, ok := e.W.ghostFieldKey(T, l.Sel.Name)
 		if !ok {
-			e.fail("ghostset: %s is not a ghost field", key)
+			e.fail("ghostset: %s.%s is not a ghost field", structKey(T), l.Sel.Name)
 		}
 		comp := "gf:" + key
 		e.regComp(comp, "(Array Int "+g.Sort+")")
@@ -1160,7 +1166,7 @@ func (w *World) mentionsGhost(x ast.Expr) bool {
 			}
 		case *ast.SelectorExpr:
 			for k := range w.ghosts {
-				if strings.HasSuffix(k, "."+v.Sel.Name) && strings.Count(k, ".") == 2 {
+				if strings.HasSuffix(k, "."+v.Sel.Name) && strings.Contains(k, ".") {
 					found = true
 				}
 			}
@@ -1275,7 +1281,7 @@ func (w *World) ghostNamesOf(con *Contract) map[string]bool {
 				}
 			case *ast.SelectorExpr:
 				for k := range w.ghosts {
-					if strings.HasSuffix(k, "."+v.Sel.Name) && strings.Count(k, ".") == 2 {
+					if strings.HasSuffix(k, "."+v.Sel.Name) && strings.Contains(k, ".") {
 						out[k] = true
 					}
 				}
@@ -1323,4 +1329,22 @@ func (w *World) ghostRelevantTo(con, top *Contract) bool {
 		}
 	}
 	return false
+}
+
+// typeComps: the field components of the named struct type pkgname.Type.
+func (w *World) typeComps(e *Enc, from *types.Package, name string) []string {
+	parts := strings.SplitN(name, ".", 2)
+	if len(parts) != 2 {
+		e.fail("alltype needs pkg.Type, got %q", name)
+	}
+	path := w.resolvePkgName(from, parts[0])
+	p := w.allPkgs[path]
+	if p == nil {
+		e.fail("alltype: unknown package %q", parts[0])
+	}
+	tn, ok := p.Types.Scope().Lookup(parts[1]).(*types.TypeName)
+	if !ok {
+		e.fail("alltype: unknown type %q", name)
+	}
+	return e.allComps(tn.Type())
 }
